@@ -176,6 +176,14 @@ def round_execs(rng, quick):
     for spec in ("$", "lld", "d", "ld", "u"):                              # (not the %i family: it reads a base prefix itself)
         for sep in (b"x", b"X", b"x1", b"b"):
             lines.append("ps %s %d %s|%s I 3 0 %d 0" % (rng.choice("SF"), rng.choice([0, 2]), spec, h(sep), rng.choice([480, 7, 15])))
+    # always: single conversions whose text is longer than any fixed buffer a reader might use (field widths of 511 .. 1100 characters)
+    for spec in ("0600ld", "600ld", "511ld", "512ld", "513li", "01100lld"):
+        # (separator "|": a blank in a scan format would also swallow the padding of the NEXT value)
+        lines.append("ps %s %d %s|7c I 3 %d %d %d" % (rng.choice("SF"), rng.choice([0, 2]), spec, rng.choice([123456789, -5, 2**62]), rng.randint(-2**40, 2**40), 7))
+    lines.append("ps S 0 0600ld|7c I 2 123456789 42")
+    for spec in ("700lf", "0700lf", "520le", "1030lg"):
+        lines.append("ps %s %d %s|7c F 2 %016x %016x" % (rng.choice("SF"), rng.choice([0, 2]), spec, fbits(0.1), fbits(-2.5e10)))
+    lines.append("ps S 0 0700lf|7c F 2 %016x %016x" % (fbits(0.1), fbits(3.0)))
     for _ in range(60 if quick else 600):
         n = rng.randint(1, 5)
         lines.append("ps %s %d %s F %d %s" % (rng.choice("SF"), rng.choice([0, 2]), rng.choice(["lf", "le", "lg", "$", "f", "e", "g", "Lf", "Le", "Lg"]) + (("|" + h(rng.choice([b"%% ", b", ", b"|"]))) if rng.random() < 0.3 else ""), n, " ".join("%016x" % rng.choice(fv) for _ in range(n))))
